@@ -155,9 +155,11 @@ func (sd *SlotDef) defReaderMethods(cname string) {
 type readSlot string
 
 // Call returns the value of a variable in the instance.
-func (rs readSlot) Call(_ *slip.Scope, args slip.List, _ int) (value slip.Object) {
+func (rs readSlot) Call(s *slip.Scope, args slip.List, depth int) (value slip.Object) {
 	if inst, _ := args[0].(slip.Instance); inst != nil {
-		value, _ = inst.SlotValue(slip.Symbol(rs))
+		if value, _ = inst.SlotValue(slip.Symbol(rs)); value == slip.Unbound {
+			value = slotUnbound(s, inst, slip.Symbol(rs), depth)
+		}
 	}
 	return
 }
